@@ -62,6 +62,27 @@ theorem app_written {ε : Type} (b : AppBuilder) (buf : Bytes) (n : Nat) (h : (b
     (App.padding (appImage b) : R ε (Option UInt8)) = .ok (getPaddingOf b.padding) :=
   Proofs.app_written b buf n h
 
+/-- C03 from a successful write -/
+theorem sdes_written {ε : Type} (b : SdesBuilder) (hz : ∀ c ∈ b.chunks, ∀ it ∈ c.items, it.type ≠ 0)
+    (buf : Bytes) (n : Nat) (h : (b.toWriter.writeInto buf).2 = .ok n) :
+    ((b.toWriter.writeInto buf).1).take n = sdesImage b ∧
+    ∃ v, Sdes.parse (sdesImage b) = .ok v ∧
+      v.chunks.map chunkAsRef = b.chunks.map chunkCfgAsRef ∧
+      (Sdes.padding v : R ε (Option UInt8)) = .ok (getPaddingOf b.padding) :=
+  Proofs.sdes_written b hz buf n h
+
+/-- C05 (packet level) from a successful write, both kinds, every built-in FCI builder -/
+theorem fb_written {ε : Type} (k : FbKind) (f : FciB) (hf : FciOk f) (p : UInt8) (s m : UInt32)
+    (buf : Bytes) (n : Nat) (h : ((FbBuilder.toWriter ⟨k, f.toFci, p, s, m⟩).writeInto buf).2 = .ok n) :
+    (((FbBuilder.toWriter ⟨k, f.toFci, p, s, m⟩).writeInto buf).1).take n = fbImage k f p s m ∧
+    Fb.parse k (fbImage k f p s m) = .ok (fbImage k f p s m) ∧
+    (Fb.senderSsrc (fbImage k f p s m) : R ε UInt32) = .ok s ∧
+    (Fb.mediaSsrc (fbImage k f p s m) : R ε UInt32) = .ok m ∧
+    (Fb.padding (fbImage k f p s m) : R ε (Option UInt8)) = .ok (getPaddingOf p) ∧
+    (hCount (fbImage k f p s m) : R ε UInt8) = .ok (fciFormat f).toUInt8 ∧
+    Fb.parseFci k (fciTypeOf f) (fbImage k f p s m) = (fciTypeOf f).parse (fciImage f) :=
+  Proofs.fb_written k f hf p s m buf n h
+
 /-- non-vacuity: a padded BYE with a reason written into a 40-byte buffer returns 16 -/
 example : ((ByeBuilder.toWriter { padding := 4, sources := [9], reason := [0x62, 0x79, 0x65] }).writeInto
     (List.replicate 40 0xee)).2 = .ok 16 := by decide
